@@ -18,6 +18,7 @@ def plan(tier, seed):
             ch("C06", F, "h_columns_arg", t, ["api.ParquetFile.to_pandas", "api.ParquetFile._get_index",
                                               "util.check_column_names"]),
             ch("C06", F, "h_range_index", t, ["api.ParquetFile.pre_allocate"]),
+            ch("C06", "vf/pyshim/h_c17.py", "h_multiindex_chunk_labels", t, ["dataframe.empty (multi-index levels)"]),
             # iter_row_groups locates each row group in the handle's list with ==
             dict(ch("C06", "vf/pyxlift/h_c10rt.py", "h_dict_eq_distinguishes", 200 if tier == "quick" else 900,
                     ["cencoding.dict_eq (lifted)", "cencoding.ThriftObject.__eq__"], shape=dict(struct="ColumnChunk"),
